@@ -164,7 +164,8 @@ class Module:
         self.name = name            # dotted
         self.is_pkg = is_pkg
         self.defs: list[Def] = []
-        self.imports: list[tuple[str, str, str]] = []   # (form, target module, extra) form in import|from|star|func|tc|rel
+        self.imports: list[tuple[str, str, str]] = []   # (form, target module, extra) form in import|from|star|func|tc|fromas|fromsub
+        self.ignored_imports: set[tuple[str, str, str]] = set()   # import lines carrying `# type: ignore`
         self.uses: list[str] = []   # rendered use blocks (frozen text)
         self.prefix: list[str] = []  # raw lines at the top (inline config, ignores...)
         self.syntax_error = False
@@ -180,10 +181,13 @@ class Module:
         out = list(self.prefix) + [HEADER]
         late: list[str] = []
         for form, target, extra in self.imports:
+            ign = "  # type: ignore" if (form, target, extra) in self.ignored_imports else ""
             if form == "import":
-                out.append(f"import {target}\n")
+                out.append(f"import {target}{ign}\n")
+            elif form == "fromsub":
+                out.append(f"from {target.rpartition('.')[0]} import {target.rpartition('.')[2]}{ign}\n")
             elif form == "from":
-                out.append(f"from {target} import {extra}\n")
+                out.append(f"from {target} import {extra}{ign}\n")
             elif form == "star":
                 out.append(f"from {target} import *\n")
             elif form == "tc":
@@ -271,6 +275,8 @@ class Project:
         form = self.rng.choice(forms or self.import_forms or ["import", "import", "from", "from", "star", "fromas", "func", "tc"])
         t = self.mods.get(tgt)
         extra = ""
+        if "." in tgt and forms is None and self.import_forms is None and self.rng.random() < 0.5:
+            form = "fromsub"
         if form in ("from", "fromas"):
             if not t or not t.defs:
                 form = "import"
@@ -289,6 +295,8 @@ class Project:
                 continue
             if form in ("import",):
                 out += [(d, f"{tgt}.{d.name}") for d in t.defs]
+            elif form == "fromsub":
+                out += [(d, f"{tgt.rpartition('.')[2]}.{d.name}") for d in t.defs]
             elif form == "from":
                 out += [(d, d.name) for d in t.defs if d.name == extra]
             elif form == "fromas":
@@ -323,12 +331,14 @@ class Project:
         ops = ["sig", "sig", "sig", "body", "body_err", "extra", "rename_def", "delete_def", "add_def", "add_use", "add_use",
                "add_import", "remove_import", "delete_module", "restore_module", "add_module", "stub_toggle",
                "syntax_error", "touch", "equal_size", "ignore_line", "inline_config", "base_change", "to_package",
-               "drop_uses", "kind_change"]
+               "drop_uses", "kind_change", "ignore_import"]
         if self.ops is not None and "stub_copy" in self.ops:
             ops.append("stub_copy")
         if self.ops is not None:
             ops = [o for o in ops if o in self.ops]
         op = rng.choice(ops)
+        if self.removed and "restore_module" in ops and rng.random() < 0.3:
+            op = "restore_module"   # something deleted earlier comes back (package appears again)
         if op == "sig" and m.defs:
             d = rng.choice(m.defs)
             which = rng.choice(["t1", "t2", "t3"])
@@ -364,12 +374,14 @@ class Project:
             src = rng.choice(mods)
             if src.imports:
                 src.imports.pop(rng.randrange(len(src.imports)))
-        elif op == "delete_module" and len(nonmain) > 2 and not m.is_pkg:
-            self.removed[m.name] = self.mods.pop(m.name)
+        elif op == "delete_module" and len(nonmain) > 2:
+            for nm in [x for x in list(self.mods) if x == m.name or x.startswith(m.name + ".")]:
+                self.removed[nm] = self.mods.pop(nm)
         elif op == "restore_module" and self.removed:
             k = rng.choice(sorted(self.removed))
-            if k not in self.mods:
-                self.mods[k] = self.removed.pop(k)
+            for nm in [x for x in list(self.removed) if x == k or x.startswith(k + ".") or k.startswith(x + ".")]:
+                if nm not in self.mods:
+                    self.mods[nm] = self.removed.pop(nm)
         elif op == "add_module":
             nm = f"mx{self.new_uid()}"
             nmod = Module(nm)
@@ -402,6 +414,14 @@ class Project:
             else:
                 lines[0] = lines[0].split("  # type: ignore")[0]
             m.uses[i] = "\n".join(lines)
+        elif op == "ignore_import":
+            src = rng.choice([x for x in mods if x.imports] or mods)
+            if src.imports:
+                imp = rng.choice(src.imports)
+                if imp in src.ignored_imports:
+                    src.ignored_imports.discard(imp)
+                else:
+                    src.ignored_imports.add(imp)
         elif op == "inline_config":
             if m.prefix:
                 m.prefix = []
@@ -428,12 +448,13 @@ class Project:
 
 
 CONTENT_OPS = ["sig", "body", "body_err", "extra", "rename_def", "delete_def", "add_def", "add_use", "add_import",
-               "remove_import", "touch", "equal_size", "ignore_line", "inline_config", "base_change", "drop_uses", "kind_change"]
+               "remove_import", "touch", "equal_size", "ignore_line", "inline_config", "base_change", "drop_uses", "kind_change",
+               "ignore_import"]
 STRUCTURE_OPS = ["delete_module", "restore_module", "add_module", "stub_toggle", "to_package"]
 ALL_DEFAULT_OPS = None  # Project.edit's own list; "stub_copy" is opt-in (ops=[..., "stub_copy"])
 BLOCKER_OPS = ["syntax_error"]
 OP_CLASS = {**{o: "content" for o in CONTENT_OPS}, **{o: "structure" for o in STRUCTURE_OPS}, "syntax_error": "blocker", "stub_copy": "stubcopy",
-            "inline_config": "config", "ignore_line": "config", "revert": "revert", "init": "init", "noop": "noop", "corpus": "corpus"}
+            "inline_config": "config", "ignore_line": "config", "ignore_import": "config", "revert": "revert", "init": "init", "noop": "noop", "corpus": "corpus"}
 
 
 def op_class(ops: list[str]) -> str:
